@@ -44,10 +44,24 @@ func init() {
 			default:
 				err = fmt.Errorf("bad item")
 			}
+			tail := ""
+			if strings.HasPrefix(it, "reset:") {
+				// what C19 asks of an accepted FEN, whatever its spelling: a well-formed value that re-encodes to a FEN which
+				// decodes to the same position (the reference has no opinion on which odd spellings a decoder may accept)
+				tail = " wf=-"
+				if err == nil {
+					p := e.Position()
+					b := e.Board()
+					p2, t2, np2, fm2, err2 := fen.Decode(p)
+					wf := err2 == nil && fen.Encode(p2, t2, np2, fm2) == p &&
+						fen.Encode(b.Position(), b.Turn(), b.NoProgress(), b.FullMoves()) == p && b.Hash() == z.Hash(b.Position(), b.Turn())
+					tail = fmt.Sprintf(" wf=%v", wf)
+				}
+			}
 			if err != nil {
-				outs = append(outs, "err "+obs())
+				outs = append(outs, "err "+obs()+tail)
 			} else {
-				outs = append(outs, "ok "+obs())
+				outs = append(outs, "ok "+obs()+tail)
 			}
 		}
 		return strings.Join(outs, " | ")
@@ -154,6 +168,14 @@ func genEngine(o *Out, r *rand.Rand, thorough bool) {
 				}
 				items = append(items, "reset:"+runesHex(f))
 				tags["reset"] = true
+				if p3, t3, np3, fm3, err := fen.Decode(f); err != nil || fen.Encode(p3, t3, np3, fm3) != f {
+					// not the canonical spelling of a FEN: whether a decoder accepts it is its own business (C19 asks that what
+					// it accepts be well formed and round-trip), so the script does not depend on it - the game is set up again from
+					// the canonical record of the shadow board
+					items = append(items, "reset:"+runesHex(fen.Encode(b.Position(), b.Turn(), b.NoProgress(), b.FullMoves())))
+					depth = 0
+					tags["reset-noncanonical+resync"] = true
+				}
 			case x < 30: // a pseudo-legal but illegal move, or the other side's move
 				ms := b.Position().PseudoLegalMoves(b.Turn())
 				if r.Intn(2) == 0 {
